@@ -3,6 +3,8 @@ import LC.Model.Lexer
 import LC.Gen.LangTable
 import LC.Spec.LangExpect
 import LC.Spec.LexSpec
+import LC.Model.V1Tok
+import LC.Model.V2Env
 /- C18 drivers: `lex` (impl-level model over the regenerated table), `chunk` (ChunkIterator). -/
 namespace Driver.Lex
 open Driver LC.Lexer LC.Utf8
@@ -29,3 +31,13 @@ def runChunk (spec : String) : String :=
   joinWith "|" ((chunkIterator cs).map (fun ch => joinWith "," (ch.map (fun c => s!"{c.startLine}:{c.endLine}"))))
 
 end Driver.Lex
+
+namespace Driver.V1
+open Driver LC.V1Tok
+
+def goClasses : Classes := { isSpace := LC.V2Env.isSpace, isPunct := LC.V2Env.isPunct }
+
+def runV1Tok (bs : List UInt8) : String :=
+  joinWith " " ((tokenize goClasses bs).map (fun t => s!"{t.offset}:{hex t.text}"))
+
+end Driver.V1
